@@ -250,6 +250,28 @@ class VSymList(SV):
         self.length = None
 
 
+class VZSeq(SV):
+    """list-family value whose content is a z3 sequence of unknown length (homogeneous int or string elements)."""
+    __slots__ = ("cls", "t", "elem_cls")
+
+    def __init__(self, cls, t, elem_cls):
+        self.cls = cls
+        self.t = t
+        self.elem_cls = elem_cls
+
+
+class VZSet(SV):
+    """set built from symbolic sequences: membership predicate over a z3 element (builtin set semantics)."""
+    __slots__ = ("cls", "member", "sort", "elem_cls", "tag")
+
+    def __init__(self, member, sort, elem_cls, tag=None, cls=set):
+        self.cls = cls
+        self.member = member
+        self.sort = sort
+        self.elem_cls = elem_cls
+        self.tag = tag
+
+
 class VText(SV):
     """Abstract program text (ghost typing): the loosest top-level operator class of the text and its
     boolean denotation over the primitive clauses.  Used for the policy translator (C18)."""
